@@ -14,14 +14,14 @@ import itertools
 
 from vf import mon_engine as me
 from vf import runner, scan, tree
-from vf.gens import inputs, reggen
+from vf.gens import inputs, reggen, wide
 from vf.props import common
 from vf.refs import engine_model as em
 
 REAL_GENS = ("ctxdec", "nest", "layer", "seedmut", "echo", "expand", "overlap", "bom", "soup", "url", "cmd", "matryoshka")
 
 
-def plan(pid, tier, seed, exh=True, real=True, rand=True, stride3=6):
+def plan(pid, tier, seed, exh=True, real=True, rand=True, stride3=6, also=()):
     quick = tier == "quick"
     shards = []
     if exh:
@@ -35,12 +35,16 @@ def plan(pid, tier, seed, exh=True, real=True, rand=True, stride3=6):
         shards.append({"name": "exh-small", "gen": "synth-exh",
                        "scopes": [[1, 0, 1], [1, 1, 1], [2, 1, 1], [3, 1, 1], [4, 1, 1], [1, 2, 1], [2, 2, 1], [3, 2, 1], [4, 2, 1]],
                        "shard": 0, "nshards": 1})
+    if True:
+        # very many decodable fragments in one text: per-scan / per-scanner budgets
+        shards.append({"name": "wide", "gen": "synth-wide", "sizes": wide.SIZES[: (4 if quick else len(wide.SIZES))]})
     secs = 22 if quick else 240
     if rand:
         for i in range(3 if quick else 5):
             shards.append({"name": f"rand{i}", "gen": "synth-rand", "seconds": secs})
     if real:
-        for g in REAL_GENS[: (8 if quick else len(REAL_GENS))]:
+        chosen = list(REAL_GENS[: (8 if quick else len(REAL_GENS))])
+        for g in chosen + [g for g in also if g not in chosen]:
             shards.append({"name": g, "gen": g, "seconds": secs})
     return shards
 
@@ -58,7 +62,7 @@ def _reporter(ctx, case, desc):
     return report
 
 
-def judge_synth(text, k, tables, sel, ctx, case, r=None):
+def judge_synth(text, k, tables, sel, ctx, case, r=None, tail=0):
     ctx.evaluated()
     need_tap = sel.c04 or sel.c05 or sel.c07 or sel.c08
     h = scan.Harness(registry=reggen.engine_registry(tables), tap=need_tap)
@@ -78,7 +82,8 @@ def judge_synth(text, k, tables, sel, ctx, case, r=None):
         want = em.scan(text, k, reggen.model_registry(tables))
         got = tree.canon(root)
         ctx.count("c06_synthetic_compared")
-        _classify(tables, text, ctx)
+        if case.get("kind") != "wide":
+            _classify(tables, text, ctx)
         if want != got:
             report("model:synthetic-mismatch", "engine tree differs from the interval-nesting model: "
                    + (tree.first_diff(got, want) or "?"))
@@ -94,7 +99,7 @@ def judge_synth(text, k, tables, sel, ctx, case, r=None):
         root2 = h2.scan(text, k + 1)
         me.check_c07_monotone(root, k, root2, h2.tap, report, counts)
     if sel.c08:
-        me.check_c08(root, h.tap, report, counts, r, registry=reggen.engine_registry(tables))
+        me.check_c08(root, h.tap, report, counts, r, registry=reggen.engine_registry(tables), tail=tail)
     if not sel.c06 and root.children:
         ctx.nontrivial(repr((case.get("picks") or case.get("tables"), case.get("assign"), case.get("order"), text, k)))
 
@@ -203,6 +208,20 @@ def run_shard(pid, sel, spec, ctx):
                                     "decoder_order": list(order)})
             ctx.count(f"scope_text{n_text}_hits{n_hits}_" + ("complete" if stride == 1 else f"every{stride}th") + "_shards_done")
         return
+    if gen == "synth-wide":
+        for n in spec["sizes"]:
+            for variant in (0, 1):
+                text, tables = wide.wide_config(n, variant)
+                for k in (1, 2, 3, 4, 5):
+                    case = {"kind": "wide", "n": n, "variant": variant, "k": k}
+                    if not ctx.begin(case):
+                        continue
+                    ctx.count("wide_configs_scanned")
+                    ctx.count("wide_max_fragments", 0)
+                    ctx.counters["wide_max_fragments"] = max(ctx.counters.get("wide_max_fragments", 0), n)
+                    judge_synth(text, k, tables, sel, ctx, case, r, tail=8)
+            ctx.sample({"wide_text_fragments": n, "depth_limits": [1, 2, 3, 4, 5], "searches_at_k5": 3 * n + 1})
+        return
     if gen == "synth-rand":
         i = 0
         while not ctx.expired():
@@ -251,6 +270,9 @@ def replay(pid, sel, case, ctx):
         tables = reggen.config_from(text, [tuple(p) for p in case["picks"]], tuple(case["assign"]), tuple(case["order"]))
         for k in ([case["k"]] if "k" in case else (0, 1, 2, 3)):
             judge_synth(text, k, tables, sel, ctx, dict(case, k=k), r)
+    elif case.get("kind") == "wide":
+        text, tables = wide.wide_config(case["n"], case["variant"])
+        judge_synth(text, case["k"], tables, sel, ctx, case, r, tail=8)
     elif case.get("kind") == "synth":
         judge_synth(runner.unhx(case["text"]), case["k"], reggen.decode_tables(case["tables"]), sel, ctx, case, r)
     else:
